@@ -325,10 +325,11 @@ fn multi_archive_check(check: &Check) {
                 seed: a * 100 + i,
                 method: METHODS[(i as usize) % 4],
                 enc: if i == 3 { Enc::Key } else { Enc::None },
+                locale: 0,
             })
             .collect();
         if a % 2 == 0 {
-            files.push(FileSpec { name: format!("only_even_{a}.bin"), class: ContentClass::Random, len: LenSpec { halves: 1, delta: 0 }, seed: a, method: M_NONE, enc: Enc::None });
+            files.push(FileSpec { name: format!("only_even_{a}.bin"), class: ContentClass::Random, len: LenSpec { halves: 1, delta: 0 }, seed: a, method: M_NONE, enc: Enc::None, locale: 0 });
         }
         let spec = ArchiveSpec { version: 1 + (a % 4) as u8, shift: 0, crcs: false, attrs: Attrs::None, listfile: true, compress_tables: false, table_method: M_ZLIB, files };
         spec.builder().build(&p).expect("build multi");
@@ -422,6 +423,7 @@ fn multi_archive_generated(check: &Check, cases: usize) {
                     seed: rng.random(),
                     method: METHODS[rng.random_range(0..4)],
                     enc: if rng.random_range(0..6) == 0 { Enc::Key } else { Enc::None },
+                    locale: 0,
                 })
                 .collect();
             let spec = ArchiveSpec { version: rng.random_range(1..=4), shift: rng.random_range(0..3), crcs: false, attrs: Attrs::None, listfile: true, compress_tables: false, table_method: M_ZLIB, files };
@@ -563,6 +565,7 @@ fn fixed_spec(nfiles: usize) -> ArchiveSpec {
                 seed: i as u32,
                 method: METHODS[i % 4],
                 enc: if i % 6 == 5 { Enc::Key } else { Enc::None },
+                locale: 0,
             })
             .collect(),
     }
